@@ -141,7 +141,11 @@ func (c *Ctx) Violate(sig, what string, files map[string]string) {
 			return
 		}
 	}
-	dir := filepath.Join(c.Home, "evidence", "replay", c.Prop, reSan.ReplaceAllString(sig, "_"))
+	base := filepath.Join(c.Home, "evidence")
+	if d := os.Getenv("VERIF_EVIDENCE_DIR"); d != "" {
+		base = d
+	}
+	dir := filepath.Join(base, "replay", c.Prop, reSan.ReplaceAllString(sig, "_"))
 	if len(dir) > 200 {
 		dir = dir[:200]
 	}
@@ -214,8 +218,12 @@ func (c *Ctx) Finish() int {
 		"violations":  len(c.violations),
 	}
 	b, _ := json.MarshalIndent(ev, "", " ")
-	_ = os.MkdirAll(filepath.Join(c.Home, "evidence"), 0o755)
-	_ = os.WriteFile(filepath.Join(c.Home, "evidence", c.Prop+".json"), append(b, '\n'), 0o644)
+	evDir := filepath.Join(c.Home, "evidence")
+	if d := os.Getenv("VERIF_EVIDENCE_DIR"); d != "" {
+		evDir = d // used when monitors are validated against mutated trees, so that real evidence is not overwritten
+	}
+	_ = os.MkdirAll(evDir, 0o755)
+	_ = os.WriteFile(filepath.Join(evDir, c.Prop+".json"), append(b, '\n'), 0o644)
 
 	for _, k := range kn {
 		fmt.Printf("KNOWN-FINDING: property=%s %s — %s\n", c.Prop, k, c.known[k])
